@@ -2097,6 +2097,8 @@ func (a *Act) fireCuts(b *ssa.BasicBlock, ii int, st *State, reach string) {
 				old := st.clone()
 				st.Next = g.havoc(a.nm("cut_next"), "Int")
 				g.assumeIf(reach, fmt.Sprintf("(>= %s %s)", st.Next, old.Next))
+				// (what was known about old.Next is forgotten with everything else: the allocation counter never decreases)
+				g.assumeIf(reach, fmt.Sprintf("(>= %s %s)", st.Next, g.entry.Next))
 				for _, k := range heapKinds {
 					if g.modAll {
 						st.H[k] = g.havoc(a.nm("cut_H"+k), heapSort[k])
